@@ -120,6 +120,21 @@ add("C20", "exploration",
 NOT_YET = {
 }
 
+# fifth round: what was added to the workloads / stages (appended to the texts above)
+MORE_TEXT = {
+    "C02": "In a third of the runs the listening socket is closed as soon as the last expected connection was accepted while the accepted sockets stay in use.",
+    "C05": "One case in 16 is a flood of 1,050..1,700 frames offered at one instant, so that a throughput-limited wire has a four-digit backlog.",
+    "C13": "One paused run in ten is given a timeout that means 'no limit' (Duration::MAX, u64::MAX s, 2^62 s, 2^32 s, u64::MAX ms) through run_internet or run_internet_with_timeout and must still return the first requested status.",
+    "C19": "The addresses the applications use sit anywhere in the last octet (0 and 255 included) and are covered by any mixture of ranges and single-address entries, tight or generous at either end, in any order; network ids and their order vary; in one run in three the machines are named like numbers or pieces of addresses (7, 2.1, 10.0.1, 1.256) and are still found by name. Two genuine defects found in the fifth round were repaired.",
+}
+MORE_TECH = {k: "; thorough tier adds a ThreadSanitizer stage (harness and std rebuilt with -Zsanitizer=thread, worker shards of the same workload and oracles, race reports with a repository frame are violations)" for k in ("C02", "C13", "C15")}
+MORE_NOTE = {
+    "C02": " A multi-thread run cut off by its wall-clock limit while reads were still returning is counted inconclusive.",
+}
+for _k in list(CHECKS):
+    c = CHECKS[_k]
+    CHECKS[_k] = (c[0], c[1] + MORE_TECH.get(_k, ""), (c[2] + " " + MORE_TEXT[_k]) if _k in MORE_TEXT else c[2], c[3] + MORE_NOTE.get(_k, ""), c[4])
+
 ALL = ["C%02d" % i for i in range(1, 21)]
 
 manifest = {
